@@ -31,6 +31,7 @@ type c11Scenario struct {
 	ArpLines  int        `json:"arp_output_lines"`
 	CacheHead []string   `json:"cache_first_lines,omitempty"`
 	Gateway   string     `json:"gateway_mac_source"` // flag | cache | none
+	Damage    string     `json:"damaged_cache,omitempty"`
 	Spec      *scanSpec  `json:"spec"`
 	World     *WorldSpec `json:"world"`
 	OddFrames []string   `json:"odd_arp_frames,omitempty"`
@@ -190,6 +191,9 @@ func runC11Compose(t *testing.T, c simrt.Chooser, o Opts) *Out {
 	gwA := ipU32(gwIP)
 	var cacheData string
 	var hash1 uint64
+	damaged := false
+	var damagedIP uint32
+	var cacheFault *FileFault
 	arpSub := mkCIDR(ipU32("10.0.0.0"), 24)
 	if sc.Variant == "compose" {
 		// ---- first command: the ARP scan -----------------------------------------------------
@@ -291,8 +295,53 @@ func runC11Compose(t *testing.T, c simrt.Chooser, o Opts) *Out {
 			}
 		}
 		cacheData = sb.String()
+		// damaged cache files: one line that is not a complete cache entry (at a drawn position), or a
+		// read fault part-way.  The scan must refuse to start with nothing sent, or behave exactly as
+		// the valid lines say (the damaged line contributing nothing) - never use a partly loaded
+		// cache or mix fields of neighbouring lines.
+		if p.pct("damaged", 35) {
+			ls := strings.Split(strings.TrimSuffix(cacheData, "\n"), "\n")
+			if cacheData == "" {
+				ls = nil
+			}
+			da := ipU32("10.0.0.0") + uint32(2+p.n("dip", 250))
+			damagedIP = da
+			dm := hostMAC(da)
+			dm[1] = 0x66
+			var bad string
+			sc.Damage = []string{"missing-mac", "missing-ip", "null-mac", "null-ip", "garbage", "truncated", "over-long", "read-fault"}[p.n("damage", 8)]
+			switch sc.Damage {
+			case "missing-mac":
+				bad = fmt.Sprintf("{\"ip\":%q}", ipStr(da))
+			case "missing-ip":
+				bad = fmt.Sprintf("{\"mac\":%q,\"vendor\":\"x\"}", pktcodec.MACString(dm[:]))
+			case "null-mac":
+				bad = fmt.Sprintf("{\"ip\":%q,\"mac\":null}", ipStr(da))
+			case "null-ip":
+				bad = fmt.Sprintf("{\"ip\":null,\"mac\":%q}", pktcodec.MACString(dm[:]))
+			case "garbage":
+				bad = "10.0.0.9 02:00:00:00:00:09"
+			case "truncated":
+				bad = fmt.Sprintf("{\"ip\":%q,\"mac\":\"02:66", ipStr(da))
+			case "over-long":
+				bad = fmt.Sprintf("{\"ip\":%q,\"mac\":%q,\"vendor\":%q}", ipStr(da), pktcodec.MACString(dm[:]), strings.Repeat("v", 70000))
+			}
+			if sc.Damage == "read-fault" {
+				if len(cacheData) > 0 {
+					cacheFault = &FileFault{ErrAt: p.n("faultat", len(cacheData))}
+				}
+			} else {
+				k := p.n("damagepos", len(ls)+1)
+				ls = append(ls[:k], append([]string{bad}, ls[k:]...)...)
+				cacheData = strings.Join(ls, "\n") + "\n"
+			}
+			damaged = true
+		}
 	}
 	model, badLines := c11CacheModel(cacheData)
+	if damaged {
+		badLines = nil // expected; the model holds the valid lines only
+	}
 	lines, _ := stdoutLines([]byte(cacheData))
 	sc.ArpLines = len(lines)
 	sc.CacheHead = firstN(lines, 6)
@@ -309,6 +358,9 @@ func runC11Compose(t *testing.T, c simrt.Chooser, o Opts) *Out {
 	}
 	sort.Slice(cached, func(i, j int) bool { return cached[i] < cached[j] })
 	pickAddr := func() uint32 {
+		if damaged && damagedIP != 0 && p.pct("fromdamaged", 25) {
+			return damagedIP
+		}
 		switch {
 		case len(cached) > 0 && p.pct("fromcache", 55):
 			return cached[p.n("cidx", len(cached))]
@@ -357,6 +409,13 @@ func runC11Compose(t *testing.T, c simrt.Chooser, o Opts) *Out {
 	} else {
 		w.Stdin = &cacheData
 	}
+	if cacheFault != nil {
+		name := "-"
+		if _, ok := w.Files[cacheFn]; ok {
+			name = cacheFn
+		}
+		w.FileFault = map[string]FileFault{name: *cacheFault}
+	}
 	w.NumCPU = p.pick("numcpu2", 1, 2, 4, 16)
 	sc.Spec, sc.World = s, w
 	cr := runCmd(t, c, w, o.Trace)
@@ -378,6 +437,13 @@ func runC11Compose(t *testing.T, c simrt.Chooser, o Opts) *Out {
 	out.Key = fmt.Sprintf("%s/%s/%v/%s/%d/%016x/%016x", sc.Variant, gwMode, s.Cmd, s.Mode, len(lines), hash1, cr.Res.Hash)
 	sig := sc.Variant + "/" + s.Kind
 	if crashOrHang(out, "C11", cr) {
+		return out
+	}
+	if damaged && cr.ExecErr != "" {
+		if n := len(cr.Wire); n > 0 {
+			out.violate("C11.error-after-send", sc.Variant+"/"+sc.Damage, "argv %v: refused (%s) after %d frames were sent", w.Argv, cr.ExecErr, n)
+		}
+		simrtProbe(out.Res, "damaged-cache-refused")
 		return out
 	}
 	// 1. every printed line is accepted by the cache loader
@@ -430,7 +496,7 @@ func runC11Compose(t *testing.T, c simrt.Chooser, o Opts) *Out {
 					whose = " (that is the cache entry of " + ipStr(a) + ")"
 				}
 			}
-			out.violate("C11.wrong-mac", sc.Variant+"/"+gwMode, "argv %v: probe to %v has Ethernet destination %s%s, expected %s = %s; cache lines: %v", w.Argv, k, got, whose, exp, src, firstN(lines, 8))
+			out.violate("C11.wrong-mac", sc.Variant+sc.Damage+"/"+gwMode, "argv %v: probe to %v has Ethernet destination %s%s, expected %s = %s; cache lines: %v", w.Argv, k, got, whose, exp, src, firstN(lines, 8))
 			return out
 		}
 	}
